@@ -33,8 +33,8 @@ Definition rundir (cons sup mp src ref : list nat) (is ir : bool) (pass err rais
   (cli_dir is ir c (fcof pass err raise), to_compare c, missing_src c, missing_ref c, unsupported c, discarded c, length (discarded_orphans c),
    map (fun s => (fst s, tsuite_bool (snd s))) (dir_suites is ir c (fcof pass err raise))).
 """
-DIRS = ["", "a", "b", "a/sub", "b/sub", "a/sub/deep"]
-BASES = ["x", "y", "data", "res", "mesh"]
+DIRS = ["", "a", "b", "a/sub", "b/sub", "a/sub/deep", ".hidden", "a/.cache"]
+BASES = ["x", "y", "data", "res", "mesh", ".partial", "x y"]
 EXTS = [".csv", ".csv", ".vtu", ".txt", ".tab", ""]   # "" = extension-less file with VTK content (sniffed)
 READ_AS_TAB = 'dsv{"delimiter":",","use_names":true}:*.tab'
 READ_AS_CSV = 'dsv{"delimiter":",","use_names":true}:*.csv'
